@@ -636,7 +636,7 @@ def rewrite_known(P):
 
 
 def stage_programs(ck, st, nprogs, per_batch, viol, known_present):
-    opts = dict(switch=False)
+    opts = dict(switch=not ck.is_known(SIG_MISSING))
     progs, stats = [], {}
     nrew = 0
     for k in range(nprogs):
@@ -766,7 +766,7 @@ def stage_sections(ck, st, nmods, loop_fixed, viol):
     mods = []
     for k in range(nmods):
         allow_anon = k % 2 == 1
-        text, fname, items, sections = gen_data_module(ck.rng, f"d{k}", allow_anon)
+        text, fname, items, sections = gen_data_module(ck.rng, f"d{k}", allow_anon, scalar_ok=not ck.is_known(SIG_REF))
         mods.append((text, fname, items, sections))
 
     def one(k):
@@ -819,7 +819,7 @@ def stage_sections(ck, st, nmods, loop_fixed, viol):
             exp_members.append(len(m.group(1).split(",")) if m and m.group(1) else 0)
         got_members = []
         for head, _ in sections:
-            m = re.search(r"struct \{([^}]*)\} " + re.escape(head) + r"\b", ctext)
+            m = re.search(r"struct[^{;]*\{([^}]*)\} " + re.escape(head) + r"\b", ctext)
             if m:
                 got_members.append(len([x for x in m.group(1).split(";") if x.strip()]))
             else:
@@ -953,7 +953,7 @@ def stage_corpus(ck, st, quick, viol):
                 p = subprocess.run(["gcc", "-fsyntax-only", "-w", *std.split(), cfile], stdout=subprocess.PIPE, stderr=subprocess.STDOUT, text=True)
                 res["cc_" + nm] = p.returncode
                 if p.returncode != 0:
-                    res["cc_err_" + nm] = "\n".join(l for l in p.stdout.split("\n") if ": error: " in l)[:4000]
+                    res["cc_err_" + nm] = "\n".join([l for l in p.stdout.split("\n") if ": error: " in l][:60])
                 else:
                     break
         for p_ in (mir, cfile):
@@ -969,7 +969,7 @@ def stage_corpus(ck, st, quick, viol):
         info["modules"] += 1
         fe = features(text)
         rc = r["emit_rc"]
-        ccerr = (r.get("cc_err_gnu2x") or "") + (r.get("cc_err_default") or "")
+        ccerr = (r.get("cc_err_gnu2x") or "") + "\n" + (r.get("cc_err_default") or "")
         if rc in (41, 42, -99):
             cls, sig = "no-termination(section loop)", SIG_LOOP
         elif rc == 3 and "multiple result" in r["err"].lower():
